@@ -1219,6 +1219,15 @@ void VariableManager::handle_struct_member_initialization(const ASTNode *node,
                                     member.name);
                             }
 
+                            // bounded: int[65536][65536] overflows the
+                            // int product (undefined behaviour)
+                            if (static_cast<int64_t>(total_size) *
+                                    resolved_size >
+                                268435456) {
+                                throw std::runtime_error(
+                                    "Array too large: more than 268435456 "
+                                    "elements");
+                            }
                             total_size *= resolved_size;
                         }
                         member_var.array_size = total_size;
